@@ -323,7 +323,7 @@ def run_text(text, ticks, period="0.125", paths=()):
     return trace
 
 
-def run_real(prog, ticks=None, crash=None, text=None):
+def run_real(prog, ticks=None, crash=None, text=None, rerun=None):
     """Build + run on ioflo. crash = None | {"tick": t, "nth": k, "exc": "RuntimeError"|"KeyboardInterrupt"}
     raises that exception from the k-th probed act call of tick t (before the act runs);
     {"tick": t, "between": True} raises KeyboardInterrupt from changeStamp before tick t."""
@@ -364,6 +364,12 @@ def run_real(prog, ticks=None, crash=None, text=None):
             calls_per_tick.append(state["calls"])
         state["tick"] = i
         state["calls"] = 0
+        # external writes injected at the start of this tick: a field is added to a share from outside the script
+        # (what a behavior or host program does with share.update(field=value))
+        for itick, ipath, ifield, ivalue in prog.get("inject") or ():
+            if itick == i:
+                house.store.fetchShare(ipath.lstrip(".")).update(**{ifield: ivalue})
+                log.cur.append(["inject", ipath, ifield, ivalue])
 
     sk = b.skedder
     tb = TickBound(sk, ticks, on_tick)
@@ -372,7 +378,7 @@ def run_real(prog, ticks=None, crash=None, text=None):
         inner = store.changeStamp
 
         def cs(stamp):
-            if tb.tick + 1 == crash["tick"]:
+            if crash and tb.tick + 1 == crash["tick"]:
                 raise KeyboardInterrupt()
             inner(stamp)
         store.changeStamp = cs
@@ -386,4 +392,37 @@ def run_real(prog, ticks=None, crash=None, text=None):
     trace["final"] = {"events": log.cur, "snap": snapshot(house, framers, paths, stamp2tick)}
     trace["nticks"] = tb.tick + 1
     trace["calls"] = calls_per_tick     # probed act calls in each completed tick (crash point space)
+    if rerun and not trace["exc"]:
+        # the same Skedder is run again (Skedder.run re-readies every taskable: a new mission with the same objects);
+        # the second run is recorded as a trace of its own under trace["rerun"]
+        t2 = {"build": trace["build"], "detail": "", "ticks": [], "final": None, "exc": None, "interrupted": False, "text": text}
+        log.cur = []
+        state["tick"] = 0
+        state["calls"] = 0
+        calls2 = []
+        stamp2tick.clear()
+
+        def on_tick2(i, stamp):
+            stamp2tick[stamp] = i
+            if i > 0:
+                t2["ticks"].append({"events": log.cur, "snap": snapshot(house, framers, paths, stamp2tick)})
+                log.cur = []
+                calls2.append(state["calls"])
+            state["tick"] = i
+            state["calls"] = 0
+        tb.tick = -1
+        tb.max_ticks = rerun
+        tb.interrupted = False
+        tb.on_tick = on_tick2
+        crash = None
+        try:
+            sk.run()
+        except Exception as ex:
+            t2["exc"] = type(ex).__name__
+            t2["exc_detail"] = str(ex)[:300]
+        t2["interrupted"] = tb.interrupted
+        t2["final"] = {"events": log.cur, "snap": snapshot(house, framers, paths, stamp2tick)}
+        t2["nticks"] = tb.tick + 1
+        t2["calls"] = calls2
+        trace["rerun"] = t2
     return trace
